@@ -666,16 +666,20 @@ def check_evaluate(ctx, fb):
     if ok:
         p, e = ws[0]
         key, val = e[2], e[3]
-        en = None
+        # two equivalent idioms: `for (i, v) in value.iter().enumerate()` storing *v, or `for i in 0..value.len()` storing value[i]
+        ivar = None
         for s_ in subterms(val):
             if s_[0] == "unwrap" and s_[1][0] == "call" and s_[1][1].endswith("Enumerate<I> as std::iter::Iterator>::next"):
-                en = s_
-        src = en[1][2][0] if en else None
-        if en is None or not (src[0] == "phi" and src[4] == call("std::iter::Iterator::enumerate", F(kv, "1"))):
-            ok, why = False, "stored value %s does not come from value.iter().enumerate() of the same map entry" % sh(val, 160)
-        elif val != F(en, "1"):
-            ok, why = False, "stores %s, specification the enumerated element" % sh(val, 160)
-        elif key != (("idx", ("bin", "Add", F(info, "0"), F(en, "0"))),) and key != (("idx", ("bin", "Add", F(en, "0"), F(info, "0"))),):
+                src = s_[1][2][0]
+                if src[0] == "phi" and src[4] == call("std::iter::Iterator::enumerate", F(kv, "1")) and val == F(s_, "1"):
+                    ivar = F(s_, "0")
+        if ivar is None and val[0] == "idx" and val[1] == F(kv, "1"):
+            rv_ = range_var(val[2])
+            if rv_ is not None and cint(rv_[0]) == 0 and rv_[1] == ("len", F(kv, "1")):
+                ivar = val[2]
+        if ivar is None:
+            ok, why = False, "stored value %s is not element i of the same map entry's vector (value.iter().enumerate() or value[i] for i in 0..value.len())" % sh(val, 160)
+        elif key != (("idx", ("bin", "Add", F(info, "0"), ivar)),) and key != (("idx", ("bin", "Add", ivar, F(info, "0"))),):
             ok, why = False, "store index is %s, specification inputs_info[key].0 + i" % sh(key, 300)
         else:
             g = [(a, v) for a, v in p.conds() if a[0] == "b" and a[1][0] == "bin" and a[1][1] in ("Ne", "Eq")]
